@@ -2,6 +2,7 @@ package main
 
 import (
 	"fmt"
+	"math"
 	"math/rand"
 	"reflect"
 	"strings"
@@ -98,6 +99,15 @@ func c10Program(seed int64, p *typed.Parser, types []reflect.Type) string {
 						sb.WriteString(sexpVal(o2.AsValue()))
 					}
 				}
+			}
+		}
+		// a value the JSON encoder rejects (NaN): the error is expected, what the failed call
+		// leaves behind in the shared encoder pool must not reach anybody else
+		if r.Intn(6) == 0 {
+			if _, err := value.ToJSON(value.NewValueInterface(M{"w": math.NaN()})); err != nil {
+				sb.WriteString("nan-rejected;")
+			} else {
+				sb.WriteString("nan-accepted;")
 			}
 		}
 		// a statically declared type with a pointer-receiver IsZero behind omitzero
